@@ -22,6 +22,7 @@ type FileSpec struct {
 	// import spellings
 	CtxAlias string `json:"ctxalias,omitempty"` // alias for "context" ("" = plain)
 	CffAlias string `json:"cffalias,omitempty"` // alias for go.uber.org/cff
+	OddImp   int    `json:"oddimp,omitempty"`   // 1: imports vcase/odd/v2 (package odd), 2: math/rand/v2 (package rand), both without an explicit name
 	TimeImp  string `json:"timeimp,omitempty"`  // "", "plain" (imports time), "alias" (tm "time"), "collide" (another package imported as time)
 }
 
@@ -363,15 +364,23 @@ func (pr *progRender) render() string {
 			})
 		}
 		if len(s.Results) > 0 {
+			// in shadow mode the Results targets are named like the value
+			// variables the generated code declares (v2, v3, ...)
+			rname := func(k int) string {
+				if s.Shadow {
+					return fmt.Sprintf("v%d", k+2)
+				}
+				return fmt.Sprintf("r%d", k)
+			}
 			for k, r := range s.Results {
 				mk, tg := pHelpers(r)
-				resultDecls = append(resultDecls, fmt.Sprintf("r%d := %s(env.Sentinel(%d))", k, mk, k))
-				resultReads = append(resultReads, fmt.Sprintf("env.Result(%d, %s(r%d))", k, tg, k))
+				resultDecls = append(resultDecls, fmt.Sprintf("%s := %s(env.Sentinel(%d))", rname(k), mk, k))
+				resultReads = append(resultReads, fmt.Sprintf("env.Result(%d, %s(%s))", k, tg, rname(k)))
 			}
 			opts = append(opts, func() string {
 				var rs []string
 				for k := range s.Results {
-					rs = append(rs, pr.wrap(fmt.Sprintf("&r%d", k)))
+					rs = append(rs, pr.wrap(fmt.Sprintf("&%s", rname(k))))
 				}
 				return n.cff + ".Results(" + strings.Join(rs, ", ") + ")"
 			})
@@ -448,6 +457,10 @@ func (pr *progRender) render() string {
 			opts = append(opts, func() string { return n.cff + ".ContinueOnError(" + pr.wrap(s.COE) + ")" })
 		case "expr":
 			opts = append(opts, func() string { return n.cff + ".ContinueOnError(" + pr.wrap("env.COEVal()") + ")" })
+		case "bctrue": // a constant that is true in the build, false when cff ran
+			opts = append(opts, func() string { return n.cff + ".ContinueOnError(" + pr.wrap("bcTrue") + ")" })
+		case "bcfalse": // a constant that is false in the build, true when cff ran
+			opts = append(opts, func() string { return n.cff + ".ContinueOnError(" + pr.wrap("bcFalse") + ")" })
 		}
 		ptaskExpr := func(pt *rt.PTaskSpec) string {
 			var body []string
@@ -768,6 +781,12 @@ func RenderFileAs(f *FileSpec, pkgAuto bool, regSuffix string) (src, side string
 		imp("time", "vcase/ext3")
 	}
 	imp(f.CffAlias, "go.uber.org/cff")
+	switch f.OddImp {
+	case 1:
+		imp("", "vcase/odd/v2") // package name (odd) differs from the last path element
+	case 2:
+		imp("", "math/rand/v2") // likewise, from the standard library
+	}
 	if needExt {
 		imp("", "vcase/ext")
 	}
@@ -784,6 +803,12 @@ func RenderFileAs(f *FileSpec, pkgAuto bool, regSuffix string) (src, side string
 		x.f("var _ = tm.Second")
 	case "collide":
 		x.f("var _ = time.Marker")
+	}
+	switch f.OddImp {
+	case 1:
+		x.f("var _ = odd.Marker // used only outside the directives")
+	case 2:
+		x.f("func oddRand%d() int { return rand.IntN(3) } // used only outside the directives", f.Idx)
 	}
 	x.f("func init() {")
 	for _, s := range f.Progs {
@@ -1022,6 +1047,16 @@ func WriteModule(dir string, p *PackageSpec, rtDir, repo string) error {
 	files["p/support.go"] = SupportSource()
 	files["ext/ext.go"] = ExtSource(extFns)
 	files["ext2/ext2.go"] = Ext2Source()
+	files["odd/v2/odd.go"] = "// Package odd lives in a directory that is not named after it.\npackage odd\n\n// Marker is referenced by importing files.\nconst Marker = 2\n"
+	bc := func(tag string, t, f bool, n int) string {
+		return fmt.Sprintf("//go:build %s\n\npackage p\n\n// Constants whose value depends on the build configuration. cff runs without\n// the verifb tag, the program is built with it.\nconst (\n\tbcTrue  = %v\n\tbcFalse = %v\n\tbcN     = %d\n)\n", tag, t, f, n)
+	}
+	files["p/bc_on.go"] = bc("verifb", true, false, 3)
+	files["p/bc_off.go"] = bc("!verifb", false, true, 1)
+	if p.Twin {
+		files["pm/bc_on.go"] = bc("verifb", true, false, 3)
+		files["pm/bc_off.go"] = bc("!verifb", false, true, 1)
+	}
 	files["ext3/ext3.go"] = "// Package ext3 is imported under names that collide with packages generated code uses.\npackage ext3\n\n// Marker is referenced by importing files.\nconst Marker = 3\n"
 	b, _ := json.MarshalIndent(p, "", " ")
 	files["specs.json"] = string(b)
